@@ -265,6 +265,7 @@ func c15Exhaustive(t *testing.T, rec *recorder) bool {
 			return true
 		}
 		c := C15Case{Level: "L1", Runs: batch, Neighbor: nbi}
+		histLog(c)
 		v := checkC15(c)
 		rec.mu.Lock()
 		rec.Evaluations += len(batch) - 1
